@@ -99,7 +99,7 @@ def run_env(spec, rec, lib):
                     case["sigs"].insert(rng.randint(0, len(case["sigs"])), [k, v])
                     case["states"] = sorted(case["states"] + ["junk"])
         model, out = judge(case, rec, lib, cfg)
-        if i % 4 == 0:
+        if i % 4 == 0 or "copy_of_other_keys_valid_entry" in case["states"]:
             pc = permuted(case, rng)
             m2, o2, _m, _s = envelope.evaluate(pc, lib)
             rec.count("permutation_pairs")
